@@ -63,6 +63,9 @@ const (
 
 	sessionRebuildInterval = time.Second * 60
 
+	// the metadata event of the handshake carries two length-prefixed paths
+	maxShmMetadataEventLen = headerSize + 2*(2+4096)
+
 	epochIDLen = 8
 	// linux file name max length
 	fileNameMaxLen = 255
